@@ -367,6 +367,211 @@ def eligible(fn, is_method):
   return _tail_ok(_nest_tail(_strip_doc(fn.body)))
 
 
+def gen_shape(fn, is_method):
+  """(pre, loop, index of the yield in loop.body, post) for a generator of the
+  form  PRE; <while/for>: A; yield E; B  ; POST  with a single yield, else None."""
+  a = fn.args
+  if fn.decorator_list or a.vararg or a.kwarg or a.posonlyargs:
+    return None
+  if is_method and (not a.args or a.args[0].arg != 'self'):
+    return None
+  ys = [n for n in ast.walk(fn) if isinstance(n, (ast.Yield, ast.YieldFrom))]
+  if len(ys) != 1 or not isinstance(ys[0], ast.Yield) or ys[0].value is None:
+    return None
+  for n in ast.walk(fn):
+    if n is not fn and isinstance(n, (ast.FunctionDef, ast.AsyncFunctionDef, ast.ClassDef,
+                                      ast.Lambda, ast.Await, ast.Global, ast.Nonlocal,
+                                      ast.Return, ast.Try, ast.With)):
+      return None
+  body = _strip_doc(fn.body)
+  loops = [i for i, st in enumerate(body) if isinstance(st, (ast.While, ast.For))]
+  for li in loops:
+    lp = body[li]
+    if lp.orelse:
+      continue
+    for yi, st in enumerate(lp.body):
+      if isinstance(st, ast.Expr) and st.value is ys[0]:
+        others = body[:li] + body[li + 1:]
+        if any(_has(o, (ast.Yield,)) for o in others):
+          return None
+        return body[:li], lp, yi, body[li + 1:]
+  return None
+
+
+def gen_straight(fn, is_method):
+  """True for a generator without loops: `yield E` statements at any depth of
+  if/else nesting, nothing else special."""
+  a = fn.args
+  if fn.decorator_list or a.vararg or a.kwarg or a.posonlyargs:
+    return False
+  if is_method and (not a.args or a.args[0].arg != 'self'):
+    return False
+  n_y = 0
+  for n in ast.walk(fn):
+    if n is not fn and isinstance(n, (ast.FunctionDef, ast.AsyncFunctionDef, ast.ClassDef,
+                                      ast.Lambda, ast.Await, ast.Global, ast.Nonlocal,
+                                      ast.Return, ast.Try, ast.With, ast.For, ast.While,
+                                      ast.YieldFrom)):
+      return False
+    if isinstance(n, ast.Yield):
+      n_y += 1
+      if n.value is None:
+        return False
+
+  def stmts_ok(stmts):
+    for st in stmts:
+      if isinstance(st, ast.Expr) and isinstance(st.value, ast.Yield):
+        continue
+      if isinstance(st, ast.If):
+        if _has(st.test, ast.Yield) or not stmts_ok(st.body) or not stmts_ok(st.orelse):
+          return False
+        continue
+      if _has(st, ast.Yield):
+        return False
+    return True
+  return 0 < n_y <= 6 and stmts_ok(_strip_doc(fn.body))
+
+
+def _expand_straight(fn, call, is_method, loop_stmt):
+  """`for T in gen(args): BODY`, gen without loops: gen's statements with each
+  `yield E` replaced by BODY[T := E] (BODY has no break / continue)."""
+  bound = _bind(fn, call, is_method)
+  if bound is None or loop_stmt.orelse or not isinstance(loop_stmt.target, ast.Name):
+    return None
+  if any(isinstance(x, (ast.Break, ast.Continue)) for st in loop_stmt.body
+         for x in _walk_same_loop(st)):
+    return None
+  t = loop_stmt.target.id
+  if any(isinstance(x, ast.Name) and x.id == t and not isinstance(x.ctx, ast.Load)
+         for st in loop_stmt.body for x in ast.walk(st)):
+    return None
+  stores = _stores(fn)
+  tag = '__' + fn.name.strip('_')
+  mapping, subst, pre = {}, {}, []
+  for p, a in bound.items():
+    if _simple(a) and p not in stores:
+      subst[p] = a
+    else:
+      mapping[p] = p + tag
+      pre.append(ast.Assign(targets=[ast.Name(id=p + tag, ctx=ast.Store())],
+                            value=copy.deepcopy(a)))
+  for s_ in stores:
+    mapping.setdefault(s_, s_ + tag)
+  ren = _Rename(mapping, subst)
+
+  def conv(stmts):
+    out = []
+    for st in stmts:
+      if isinstance(st, ast.Expr) and isinstance(st.value, ast.Yield):
+        e = ren.visit(copy.deepcopy(st.value.value))
+        if _simple(e):
+          class R(ast.NodeTransformer):
+            def visit_Name(self, x):
+              if x.id == t and isinstance(x.ctx, ast.Load):
+                return ast.copy_location(copy.deepcopy(e), x)
+              return x
+          out += [R().visit(copy.deepcopy(b)) for b in loop_stmt.body]
+        else:
+          out.append(ast.Assign(targets=[ast.Name(id=t, ctx=ast.Store())], value=e))
+          out += copy.deepcopy(loop_stmt.body)
+      elif isinstance(st, ast.If):
+        st2 = copy.copy(st)
+        st2.test = ren.visit(copy.deepcopy(st.test))
+        st2.body = conv(st.body) or [ast.Pass()]
+        st2.orelse = conv(st.orelse)
+        out.append(st2)
+      else:
+        out.append(ren.visit(copy.deepcopy(st)))
+    return out
+  out = pre + conv(_strip_doc(fn.body))
+  for st in out:
+    ast.copy_location(st, loop_stmt)
+    ast.fix_missing_locations(st)
+  return out or [ast.copy_location(ast.Pass(), loop_stmt)]
+
+
+def _expand_generator(fn, call, is_method, loop_stmt):
+  """`for T in gen(args): BODY` with gen as in gen_shape: the generator's loop
+  with `yield E` replaced by BODY (T bound to E)."""
+  if gen_straight(fn, is_method):
+    return _expand_straight(fn, call, is_method, loop_stmt)
+  shape = gen_shape(fn, is_method)
+  bound = _bind(fn, call, is_method)
+  if shape is None or bound is None or loop_stmt.orelse:
+    return None
+  pre, lp, yi, post = shape
+  body_has = lambda k: any(isinstance(x, k) for st in loop_stmt.body
+                           for x in _walk_same_loop(st))
+  if body_has(ast.Break) and post:
+    return None        # a closed generator does not run what follows its loop
+  if body_has(ast.Continue) and lp.body[yi + 1:]:
+    return None        # `continue` resumes the generator after the yield
+  stores = _stores(fn)
+  tag = '__' + fn.name.strip('_')
+  mapping, subst, pre_assign = {}, {}, []
+  yv = lp.body[yi].value.value
+  tgt = loop_stmt.target
+  direct = None
+  if isinstance(yv, ast.Name) and isinstance(tgt, ast.Name) and yv.id in (
+      stores | set(bound)):
+    tname = tgt.id
+    used = {n.id for n in ast.walk(fn) if isinstance(n, ast.Name)}
+    for p_, a_ in bound.items():
+      used |= {n.id for n in ast.walk(a_) if isinstance(n, ast.Name)}
+    body_stores = {n.id for st in loop_stmt.body for n in ast.walk(st)
+                   if isinstance(n, ast.Name) and isinstance(n.ctx, (ast.Store, ast.Del))}
+    if tname not in used and tname not in body_stores:
+      direct = (yv.id, tname)
+  for p, a in bound.items():
+    if direct and p == direct[0]:
+      mapping[p] = direct[1]
+      pre_assign.append(ast.Assign(targets=[ast.Name(id=direct[1], ctx=ast.Store())],
+                                   value=copy.deepcopy(a)))
+    elif _simple(a) and p not in stores:
+      subst[p] = a
+    else:
+      mapping[p] = p + tag
+      pre_assign.append(ast.Assign(targets=[ast.Name(id=p + tag, ctx=ast.Store())],
+                                   value=copy.deepcopy(a)))
+  for s_ in stores:
+    if s_ not in mapping:
+      mapping[s_] = direct[1] if direct and s_ == direct[0] else s_ + tag
+  ren = _Rename(mapping, subst)
+  pre2 = [ren.visit(copy.deepcopy(x)) for x in pre]
+  post2 = [ren.visit(copy.deepcopy(x)) for x in post]
+  lp2 = copy.deepcopy(lp)
+  ybody = []
+  if not direct:
+    ybody.append(ast.Assign(targets=[copy.deepcopy(tgt)],
+                            value=ren.visit(copy.deepcopy(lp.body[yi].value.value))))
+  ybody += copy.deepcopy(loop_stmt.body)
+  before = [ren.visit(x) for x in lp2.body[:yi]]
+  after = [ren.visit(x) for x in lp2.body[yi + 1:]]
+  if isinstance(lp2, ast.While):
+    lp2.test = ren.visit(lp2.test)
+  else:
+    lp2.iter = ren.visit(lp2.iter)
+    lp2.target = ren.visit(lp2.target)
+  lp2.body = before + ybody + after
+  out = pre_assign + pre2 + [lp2] + post2
+  for st in out:
+    ast.copy_location(st, loop_stmt)
+    ast.fix_missing_locations(st)
+  return out
+
+
+def _walk_same_loop(st):
+  """nodes of st that belong to the enclosing loop (not to a nested loop/def)"""
+  yield st
+  if isinstance(st, (ast.For, ast.While, ast.FunctionDef, ast.Lambda, ast.ClassDef)):
+    # a nested loop owns its own break/continue; its else clause does not
+    for x in getattr(st, 'orelse', []) or []:
+      yield from _walk_same_loop(x)
+    return
+  for ch in ast.iter_child_nodes(st):
+    yield from _walk_same_loop(ch)
+
+
 class _Rename(ast.NodeTransformer):
 
   def __init__(self, mapping, subst):
@@ -630,12 +835,55 @@ def view(fn, cls_node, module_tree, depth=3, keep=()):
   return f2
 
 
+def _as_expression(fn):
+  """The value of a helper as one expression: `return E`, possibly preceded by
+  assignments of call-free expressions to locals that are each assigned once and
+  read once (they are substituted into E)."""
+  body = _strip_doc(fn.body)
+  if not body or not isinstance(body[-1], ast.Return) or body[-1].value is None:
+    return None
+  e = copy.deepcopy(body[-1].value)
+  for st in reversed(body[:-1]):
+    if not (isinstance(st, ast.Assign) and len(st.targets) == 1 and isinstance(
+        st.targets[0], ast.Name)) or _has(st.value, (ast.Call, ast.Lambda, ast.Yield,
+                                                     ast.NamedExpr)):
+      return None
+    name = st.targets[0].id
+    uses = [n for n in ast.walk(e) if isinstance(n, ast.Name) and n.id == name]
+    if len(uses) != 1 or any(isinstance(n, ast.Name) and n.id == name
+                             for n in ast.walk(st.value)):
+      return None
+    val = st.value
+
+    class R(ast.NodeTransformer):
+      def visit_Name(self, n):
+        if n.id == name and isinstance(n.ctx, ast.Load):
+          return copy.deepcopy(val)
+        return n
+    e = R().visit(e)
+  # no other stores (comprehension variables, walrus) may remain
+  if any(isinstance(n, ast.Name) and not isinstance(n.ctx, ast.Load) for n in ast.walk(e)):
+    return None
+  return e
+
+
 class _Inliner:
 
-  def __init__(self, helpers_mod, helpers_cls):
+  def __init__(self, helpers_mod, helpers_cls, gens_mod=None, gens_cls=None):
     self.helpers_mod = helpers_mod      # name -> FunctionDef (module level)
     self.helpers_cls = helpers_cls      # class name -> {name: FunctionDef}
+    self.gens_mod = gens_mod or {}      # generator helpers (gen_shape)
+    self.gens_cls = gens_cls or {}
     self.count = 0
+
+  def _gen_callee(self, call, cls):
+    f = call.func
+    if isinstance(f, ast.Name) and f.id in self.gens_mod:
+      return self.gens_mod[f.id], False
+    if isinstance(f, ast.Attribute) and isinstance(f.value, ast.Name) and \
+        f.value.id == 'self' and cls is not None and f.attr in self.gens_cls.get(cls, {}):
+      return self.gens_cls[cls][f.attr], True
+    return None, False
 
   def _callee(self, call, cls):
     f = call.func
@@ -664,6 +912,13 @@ class _Inliner:
         h.body = self.block(h.body, cls)
     if isinstance(s, (ast.FunctionDef, ast.ClassDef)):
       return [s]
+    if isinstance(s, ast.For) and isinstance(s.iter, ast.Call):
+      g, is_m = self._gen_callee(s.iter, cls)
+      if g is not None:
+        rep = _expand_generator(g, s.iter, is_m, s)
+        if rep is not None:
+          self.count += 1
+          return rep
     call = how = target = None
     if isinstance(s, ast.Expr) and isinstance(s.value, ast.Call):
       call, how = s.value, 'expr'
@@ -717,16 +972,14 @@ class _Inliner:
         fn, is_m = me._callee(n, cls)
         if fn is None:
           return n
-        body = _strip_doc(fn.body)
-        if len(body) != 1 or not isinstance(body[0], ast.Return) or body[0].value is None:
+        ex = _as_expression(fn)
+        if ex is None:
           return n
         bound = _bind(fn, n, is_m)
         if bound is None or not all(_simple(a) for a in bound.values()):
           return n
-        if _stores(fn):
-          return n        # comprehension variables etc.: keep it simple
         me.count += 1
-        e = _Rename({}, bound).visit(copy.deepcopy(body[0].value))
+        e = _Rename({}, bound).visit(ex)
         return ast.copy_location(e, n)
     for f, v in ast.iter_fields(s):
       if isinstance(v, ast.expr):
@@ -747,6 +1000,7 @@ def apply(tree, rel):
   inline_new_constants(tree, rel)
   n = _apply_helpers(tree, rel)
   _Idioms().visit(tree)
+  fold_lock_blocks(tree)
   import os
   if os.environ.get('VERIF_NO_ALIAS_PROP') != '1':
     for f in ast.walk(tree):
@@ -844,7 +1098,48 @@ class _Idioms(ast.NodeTransformer):
           value=c.args[2]), n)
     return n
 
+  @staticmethod
+  def _unrolled(elt, gens):
+    """[elt[v:=c] for c in literal constants] for a single, unfiltered generator
+    over a literal tuple / list of constants; None otherwise"""
+    if len(gens) != 1 or gens[0].ifs or gens[0].is_async or not isinstance(
+        gens[0].target, ast.Name) or not isinstance(gens[0].iter, (ast.Tuple, ast.List)):
+      return None
+    elts = gens[0].iter.elts
+    if not (0 < len(elts) <= 8) or not all(isinstance(e, ast.Constant) for e in elts):
+      return None
+    v = gens[0].target.id
+    if any(isinstance(x, ast.Name) and x.id == v and not isinstance(x.ctx, ast.Load)
+           for x in ast.walk(elt)) or _has(elt, (ast.Lambda, ast.GeneratorExp, ast.ListComp,
+                                                 ast.SetComp, ast.DictComp)):
+      return None
+    out = []
+    for c in elts:
+      class R(ast.NodeTransformer):
+        def visit_Name(self, x):
+          if x.id == v and isinstance(x.ctx, ast.Load):
+            return ast.copy_location(ast.Constant(c.value), x)
+          return x
+      out.append(R().visit(copy.deepcopy(elt)))
+    return out
+
+  def visit_ListComp(self, n):
+    u = self._unrolled(n.elt, n.generators)
+    if u is not None:
+      return self.visit(ast.copy_location(ast.List(elts=u, ctx=ast.Load()), n))
+    self.generic_visit(n)
+    return n
+
   def visit_Call(self, n):
+    # tuple(E(v) for v in ('a', 'b'))  ==  (E('a'), E('b'))
+    if isinstance(n.func, ast.Name) and n.func.id in ('tuple', 'list') and \
+        len(n.args) == 1 and not n.keywords and isinstance(
+            n.args[0], (ast.GeneratorExp, ast.ListComp)):
+      u = self._unrolled(n.args[0].elt, n.args[0].generators)
+      if u is not None:
+        lit = ast.Tuple(elts=u, ctx=ast.Load()) if n.func.id == 'tuple' else \
+            ast.List(elts=u, ctx=ast.Load())
+        return self.visit(ast.fix_missing_locations(ast.copy_location(lit, n)))
     self.generic_visit(n)
     if isinstance(n.func, ast.Attribute) and n.func.attr == 'get' and len(n.args) == 2 \
         and not n.keywords and isinstance(n.args[1], ast.Constant) and \
@@ -863,27 +1158,69 @@ class _Idioms(ast.NodeTransformer):
     return n
 
 
+def fold_lock_blocks(tree):
+  """X.acquire(); try: BODY finally: X.release()   ==   with X: BODY"""
+  def rec(stmts):
+    out = []
+    i = 0
+    while i < len(stmts):
+      st = stmts[i]
+      nxt = stmts[i + 1] if i + 1 < len(stmts) else None
+      if isinstance(st, ast.Expr) and isinstance(st.value, ast.Call) and isinstance(
+          st.value.func, ast.Attribute) and st.value.func.attr == 'acquire' and \
+          not st.value.args and not st.value.keywords and _simple(st.value.func.value) \
+          and isinstance(nxt, ast.Try) and not nxt.handlers and not nxt.orelse and \
+          len(nxt.finalbody) == 1 and isinstance(nxt.finalbody[0], ast.Expr) and \
+          isinstance(nxt.finalbody[0].value, ast.Call) and isinstance(
+              nxt.finalbody[0].value.func, ast.Attribute) and \
+          nxt.finalbody[0].value.func.attr == 'release' and \
+          not nxt.finalbody[0].value.args and ast.unparse(
+              nxt.finalbody[0].value.func.value) == ast.unparse(st.value.func.value):
+        w = ast.With(items=[ast.withitem(context_expr=st.value.func.value,
+                                         optional_vars=None)], body=rec(nxt.body))
+        out.append(ast.fix_missing_locations(ast.copy_location(w, st)))
+        i += 2
+        continue
+      for f in ('body', 'orelse', 'finalbody'):
+        b = getattr(st, f, None)
+        if isinstance(b, list) and b and isinstance(b[0], ast.stmt):
+          setattr(st, f, rec(b))
+      for h in getattr(st, 'handlers', []) or []:
+        h.body = rec(h.body)
+      out.append(st)
+      i += 1
+    return out
+  tree.body = rec(tree.body)
+
+
 def _apply_helpers(tree, rel):
   kn = known(rel)
   if kn is None:
     return 0
   helpers_mod = {}
   helpers_cls = {}
+  gens_mod = {}
+  gens_cls = {}
   # (a reference function that was merely renamed has got its name back in
   # rename_back, so every private function that is still unknown here is new)
   for s in tree.body:
     if isinstance(s, ast.FunctionDef) and s.name.startswith('_') and \
-        not s.name.startswith('__') and s.name not in kn and eligible(s, False):
-      helpers_mod[s.name] = s
+        not s.name.startswith('__') and s.name not in kn:
+      if eligible(s, False):
+        helpers_mod[s.name] = s
+      elif gen_shape(s, False) or gen_straight(s, False):
+        gens_mod[s.name] = s
     elif isinstance(s, ast.ClassDef):
       for m in s.body:
         if isinstance(m, ast.FunctionDef) and m.name.startswith('_') and \
-            not m.name.startswith('__') and (s.name + '.' + m.name) not in kn and \
-            eligible(m, True):
-          helpers_cls.setdefault(s.name, {})[m.name] = m
-  if not helpers_mod and not helpers_cls:
+            not m.name.startswith('__') and (s.name + '.' + m.name) not in kn:
+          if eligible(m, True):
+            helpers_cls.setdefault(s.name, {})[m.name] = m
+          elif gen_shape(m, True) or gen_straight(m, True):
+            gens_cls.setdefault(s.name, {})[m.name] = m
+  if not helpers_mod and not helpers_cls and not gens_mod and not gens_cls:
     return 0
-  inl = _Inliner(helpers_mod, helpers_cls)
+  inl = _Inliner(helpers_mod, helpers_cls, gens_mod, gens_cls)
   # helpers may call each other: expand inside helpers first (two rounds)
   for _ in range(2):
     for fn in list(helpers_mod.values()):
@@ -910,12 +1247,13 @@ def _apply_helpers(tree, rel):
     elif isinstance(n, ast.Constant) and isinstance(n.value, str):
       refs.add(n.value)
   tree.body = [s for s in tree.body
-               if not (isinstance(s, ast.FunctionDef) and s.name in helpers_mod
-                       and s.name not in refs)]
+               if not (isinstance(s, ast.FunctionDef) and (
+                   s.name in helpers_mod or s.name in gens_mod) and s.name not in refs)]
   for s in tree.body:
     if isinstance(s, ast.ClassDef):
       s.body = [m for m in s.body
-                if not (isinstance(m, ast.FunctionDef) and m.name in helpers_cls.get(s.name, {})
+                if not (isinstance(m, ast.FunctionDef) and (
+                    m.name in helpers_cls.get(s.name, {}) or m.name in gens_cls.get(s.name, {}))
                         and m.name not in refs)] or [ast.Pass()]
   ast.fix_missing_locations(tree)
   return inl.count
